@@ -6,7 +6,10 @@ from pyvc.sym import VInt, VBool, VStr, VRec, INT, STR, TRec, tobool, toint, tos
 VERIFY = ["trees.grammar.LabelGenerator.next"]
 TRUSTED = ["'%d' % n: uninterpreted py_int_to_str (distinct integers have distinct decimal renderings is NOT assumed; "
            "freshness is stated on the counter)"]
-ASSUMPTIONS = ["the generator object is modelled as a record with the field numb; args/kwargs are not touched by next()"]
+ASSUMPTIONS = ["the generator object is modelled as a record with the field numb; args/kwargs are not touched by next()",
+               "MarkovLabelGenerator.next: kwargs['p'] is a table with integer v, h and optional nofanout; params carries "
+               "vert / func (lists of strings), fanout (list of integers), pos with 0 <= pos and pos + 1 < len(func), "
+               "len(fanout) (the call sites in binarize_rule)"]
 
 
 def build(reg):
@@ -22,3 +25,89 @@ def build(reg):
     reg.add(Contract(
         target="trees.grammar.LabelGenerator.next", prop="C07", args=dict(self=SELF), params={},
         ensures={"next_label_and_counter": post}, result_type=STR))
+
+
+# ----------------------------------------------------------------------------------------------------------------------
+# MarkovLabelGenerator.next: the Markovization label is '@' + vertical part + horizontal part + 'X', where
+#   vertical part   = '^' + vert[0] ... '^' + vert[m-1],  m = min(v, len(vert))   (nothing for v <= 0)
+#   horizontal part = '-' + func[pos+1] [+ fanout[pos+1]]  '-' + func[pos] [+ fanout[pos]] ...   min(h, pos+1) items,
+#                     walking left from the current right-hand-side position (nothing for h <= 0); fan-outs are
+#                     left out with `nofanout`
+# The two concatenations are ghost prefix sequences defined by primitive recursion (conservative definitions).
+# Verified as a block (the whole body of the method): the options record p is a table with symbolic presence of
+# `nofanout`, which the typed-argument front end cannot express.
+# ----------------------------------------------------------------------------------------------------------------------
+def lemma_markov_label(reg, repo):
+    from pyvc.core import Exec, State
+    from pyvc.heap import Heap
+    from pyvc.sym import VList, TList, fresh, qforall, Unsupported, BOOL
+    qual = "trees.grammar.MarkovLabelGenerator.next"
+    info = repo.fns.get(qual)
+    if info is None:
+        raise Unsupported("function %s no longer exists" % qual)
+    c = Contract(target=qual, prop="C07", args={}, params={}, loops={})
+    ex = Exec(repo, reg, info, c, prefix="C07.markov_label")
+    st = State(heap=Heap.fresh("M"))
+    ex.entry_heap = st.heap.copy()
+    assume = []
+    v, h = z3.Int(fresh_name("m_v")), z3.Int(fresh_name("m_h"))
+    nofan = z3.Bool(fresh_name("m_nofanout"))
+    p = VRec("params", {"has": {"v": z3.BoolVal(True), "h": z3.BoolVal(True), "nofanout": nofan},
+                        "val": {"v": VInt(v), "h": VInt(h), "nofanout": VBool(z3.BoolVal(True))}})
+    vert = fresh(TList(STR), "m_vert", assume=assume)
+    func = fresh(TList(STR), "m_func", assume=assume)
+    fanout = fresh(TList(INT), "m_fanout", assume=assume)
+    pos = z3.Int(fresh_name("m_pos"))
+    params = VRec("params", {"has": {k: z3.BoolVal(True) for k in ("vert", "func", "fanout", "pos")},
+                             "val": {"vert": vert, "func": func, "fanout": fanout, "pos": VInt(pos)}})
+    self_ = VRec("rec", {"kwargs": VRec("dict", {"p": p}), "numb": VInt(z3.Int(fresh_name("m_numb")))})
+    st.env.update({"self": self_, "params": params})
+    for t in assume:
+        st.assume(t)
+    # the call sites in binarize_rule: 0 <= pos, func and fanout have an entry for every position up to pos + 1
+    st.assume(z3.And(pos >= 0, pos + 1 < func.n, pos + 1 < fanout.n))
+    V = z3.Function("m_vertical_prefix", z3.IntSort(), z3.StringSort())
+    Hz = z3.Function("m_horizontal_prefix", z3.IntSort(), z3.StringSort())
+    k = z3.Int(fresh_name("mk"))
+    S_ = z3.StringVal
+    item = lambda q: z3.If(nofan, z3.Concat(S_("-"), tostr(func.get(pos - q + 1))),
+                           z3.Concat(S_("-"), tostr(func.get(pos - q + 1)), int_to_str(toint(fanout.get(pos - q + 1)))))
+    st.assume(V(0) == S_(""))
+    st.assume(qforall([k], z3.Implies(z3.And(0 <= k, k < vert.n),
+                                      V(k + 1) == z3.Concat(V(k), S_("^"), tostr(vert.get(k)))), [V(k + 1)]))
+    st.assume(Hz(0) == S_(""))
+    st.assume(qforall([k], z3.Implies(z3.And(0 <= k, k <= pos), Hz(k + 1) == z3.Concat(Hz(k), item(k))), [Hz(k + 1)]))
+
+    def vert_inv(S):
+        it = toint(S.it)
+        return VBool(z3.And(tostr(S.vert) == V(it), it <= v))
+
+    def horiz_inv(S):
+        i, cnt = toint(S.i), toint(S.cnt)
+        return VBool(z3.And(cnt >= 0, i == pos + 1 - cnt, i >= 0, cnt <= h, tostr(S.horiz) == Hz(cnt)))
+
+    import ast
+    loops = [n for n in ast.walk(info.node) if isinstance(n, (ast.For, ast.While))]
+    if len(loops) != 2:
+        raise Unsupported("expected two loops in MarkovLabelGenerator.next, found %d" % len(loops))
+    for n in loops:
+        ex.c.loops[ex.loop_ords[id(n)]] = dict(inv=vert_inv if isinstance(n, ast.For) else horiz_inv,
+                                               variant=None if isinstance(n, ast.For) else (lambda S: VInt(toint(S.i))))
+    ex.obligations = []
+    outs = ex._with_raises(st, ex.exec_block(info.node.body, st))
+    vcs = []
+    mn = lambda a, b: z3.If(a <= b, a, b)
+    m_v = z3.If(v > 0, mn(v, vert.n), 0)
+    m_h = z3.If(h > 0, mn(h, pos + 1), 0)
+    for oi, o in enumerate(outs):
+        if o.kind != "return":
+            raise Unsupported("MarkovLabelGenerator.next leaves by %s" % o.kind)
+        vcs.append(("path%d.label_is_at_vertical_horizontal_X" % oi, list(o.st.pc),
+                    tostr(o.val) == z3.Concat(S_("@"), V(m_v), Hz(m_h), S_("X"))))
+    for ob in ex.obligations:
+        vcs.append(("body.%s" % ob.name.split(".", 2)[-1], list(ob.pc), ob.goal))
+    return vcs
+
+
+lemma_markov_label.target = "trees.grammar.MarkovLabelGenerator.next"
+LEMMAS = {"markov_label": lemma_markov_label}
